@@ -39,9 +39,11 @@ type rootDesc struct {
 }
 
 type foreignDesc struct {
-	Kind  string `json:"kind"`  // new | wrap | ptr | nilptr | slice | map | val
+	Kind  string `json:"kind"`  // new | wrap | ptr | nilptr | slice | map | val | wrapg
 	Text  string `json:"text"`  // message / contents
 	Inner int    `json:"inner"` // wrap: index of the wrapped foreign error (must precede)
+	Cell  int    `json:"cell"`  // wrapg: the gerror value (cell) wrapped with %w; such entries come last
+	// and are built after the history has run (they may wrap derived errors)
 }
 
 type ref struct {
@@ -51,7 +53,7 @@ type ref struct {
 
 type opDesc struct {
 	Recv ref    `json:"recv"`
-	M    string `json:"m"`
+	M    string `json:"m"` // one of the 19 methods, or "FactoryOf" (gerror.FactoryOf applied to Recv)
 	Src  string `json:"src"`
 	DTag string `json:"dtag"`
 	Fmt  string `json:"fmt"`
@@ -67,7 +69,8 @@ type caseJ struct {
 	Foreign []foreignDesc `json:"foreign"`
 	Ops     []opDesc      `json:"ops"`
 	NCells  int           `json:"ncells"`
-	Is      [][]int       `json:"is"`
+	Embs    []int         `json:"embs"`    // cells whose embedded *GError also takes part in the Is matrix
+	Is      [][]int       `json:"is"`      // over cells, embs, foreign, nil
 	Extract []int         `json:"extract"` // -1 nil, 4999 unknown pointer
 	Note    string        `json:"note,omitempty"`
 }
@@ -162,6 +165,14 @@ func (w *world) mkForeign(k int, d foreignDesc) {
 		g = "VF 2 true " + id + " (" + w.fgal[d.Inner] + ")"
 	case "ptr":
 		e, g = &ptrErr{d.Text}, "VF 3 true "+id+" VNil"
+	case "wrapg":
+		c := w.cells[d.Cell]
+		e = fmt.Errorf("context: %w", c.e)
+		if _, isBase := c.e.(*gerror.GError); isBase {
+			g = "VF 2 true " + id + " (VG " + strconv.Itoa(d.Cell) + ")"
+		} else {
+			g = "VF 2 true " + id + " (VX " + strconv.Itoa(d.Cell) + ")"
+		}
 	case "nilptr":
 		e, g = (*ptrErr)(nil), "VF 3 true 0 VNil"
 	case "slice":
@@ -201,6 +212,20 @@ func (w *world) factoryOf(r ref) gerror.Factory {
 		return w.cells[r.I].emb
 	}
 	return w.cells[r.I].e.(gerror.Factory)
+}
+
+// factoryOfValue applies gerror.FactoryOf to an existing value (a "sub-factory" when the value is
+// a derived error) and returns the same value.
+func factoryOfValue(e gerror.Error) gerror.Error {
+	switch x := e.(type) {
+	case *gerror.GError:
+		return gerror.FactoryOf(x).(gerror.Error)
+	case *ExtA:
+		return gerror.FactoryOf(x).(gerror.Error)
+	case *ExtB:
+		return gerror.FactoryOf(x).(gerror.Error)
+	}
+	panic("FactoryOf: unknown type")
 }
 
 func apply(f gerror.Factory, m string, o *opDesc, err error) gerror.Error {
@@ -264,10 +289,20 @@ func run(kind string, roots []rootDesc, foreign []foreignDesc, ops []opDesc) (ca
 	for _, d := range roots {
 		w.mkRoot(d)
 	}
+	nEarly := 0
 	for k, d := range foreign {
+		if d.Kind == "wrapg" {
+			break
+		}
 		w.mkForeign(k, d)
+		nEarly++
 	}
-	c := caseJ{Kind: kind, Roots: roots, Foreign: foreign, Ops: ops}
+	c := caseJ{Kind: kind, Roots: roots, Foreign: foreign, Ops: ops, Embs: []int{}}
+	for i, d := range roots {
+		if d.Kind != "base" && d.IsFac {
+			c.Embs = append(c.Embs, i)
+		}
+	}
 	for k := range ops {
 		o := &ops[k]
 		err := w.errOf(o.Err)
@@ -279,7 +314,11 @@ func run(kind string, roots []rootDesc, foreign []foreignDesc, ops []opDesc) (ca
 					c.Note += fmt.Sprintf("op %d panicked: %v; ", k, r)
 				}
 			}()
-			res = apply(w.factoryOf(o.Recv), o.M, o, err)
+			if o.M == "FactoryOf" {
+				res = factoryOfValue(w.cells[o.Recv.I].e)
+			} else {
+				res = apply(w.factoryOf(o.Recv), o.M, o, err)
+			}
 		}()
 		o.Res = -1
 		if res == nil {
@@ -297,9 +336,15 @@ func run(kind string, roots []rootDesc, foreign []foreignDesc, ops []opDesc) (ca
 		}
 	}
 	c.NCells = len(w.cells)
-	vals := make([]error, 0, len(w.cells)+len(w.foreign)+1)
+	for k := nEarly; k < len(foreign); k++ { // the wrappers of gerror values
+		w.mkForeign(k, foreign[k])
+	}
+	vals := make([]error, 0, len(w.cells)+len(c.Embs)+len(w.foreign)+1)
 	for _, cl := range w.cells {
 		vals = append(vals, cl.e)
+	}
+	for _, i := range c.Embs {
+		vals = append(vals, w.cells[i].emb)
 	}
 	vals = append(vals, w.foreign...)
 	vals = append(vals, nil)
@@ -372,8 +417,11 @@ func gallina(c caseJ, w *world) string {
 		return "mkRoot " + gstr(d.Name) + " " + gstr(d.Msg) + " " + gstr(d.Src) + " " + gal.Bool(d.IsFac) + " " + x
 	})
 	ops := gal.ListOf(c.Ops, func(o opDesc) string {
-		return "mkOp " + gref(o.Recv) + " M" + o.M + " " + gstr(o.Src) + " " + gstr(o.DTag) + " " + gstr(o.Fmt) + " " +
-			gstr(o.Orig) + " 0 [120]%N " + gref(o.Err)
+		if o.M == "FactoryOf" {
+			return "HFac " + strconv.Itoa(o.Recv.I)
+		}
+		return "HOp (mkOp " + gref(o.Recv) + " M" + o.M + " " + gstr(o.Src) + " " + gstr(o.DTag) + " " + gstr(o.Fmt) + " " +
+			gstr(o.Orig) + " 0 [120]%N " + gref(o.Err) + ")"
 	})
 	res := gal.ListOf(c.Ops, func(o opDesc) string {
 		if o.Res < 0 {
@@ -392,7 +440,7 @@ func gallina(c caseJ, w *world) string {
 	for i, g := range w.fgal {
 		fs[i] = "(" + g + ")"
 	}
-	return "{| q_roots := " + roots + "; q_foreign := " + gal.List(fs) + "; q_ops := " + ops +
+	return "{| q_roots := " + roots + "; q_foreign := " + gal.List(fs) + "; q_ops := " + ops + "; q_embs := " + gal.ListOf(c.Embs, strconv.Itoa) +
 		"; q_res := " + res + "; q_is := " + is + "; q_extract := " + ex + " |}"
 }
 
@@ -463,7 +511,7 @@ func randForeign(r *rand.Rand) []foreignDesc {
 	return fs
 }
 
-func randOps(r *rand.Rand, roots []rootDesc, nforeign, n int) []opDesc {
+func randOps(r *rand.Rand, roots []rootDesc, nforeign, n int) ([]opDesc, int) {
 	type info struct {
 		depth int
 		ext   bool
@@ -476,6 +524,10 @@ func randOps(r *rand.Rand, roots []rootDesc, nforeign, n int) []opDesc {
 	for len(ops) < n {
 		ri := r.IntN(len(cells))
 		if cells[ri].depth >= 6 {
+			continue
+		}
+		if r.IntN(10) == 0 { // turn an existing value (often a derived one) into a factory
+			ops = append(ops, opDesc{Recv: ref{"cell", ri}, M: "FactoryOf", Err: ref{"nil", 0}})
 			continue
 		}
 		recv := ref{"cell", ri}
@@ -507,7 +559,7 @@ func randOps(r *rand.Rand, roots []rootDesc, nforeign, n int) []opDesc {
 			cells = append(cells, info{cells[ri].depth + 1, cells[ri].ext && !viaEmb})
 		}
 	}
-	return ops
+	return ops, len(cells)
 }
 
 func op(recv int, m string) opDesc {
@@ -537,6 +589,17 @@ func corpus(out *gal.Out) {
 		{Recv: ref{"cell", 1}, M: "ConvertS", Err: ref{"emb", 2}}, {Recv: ref{"emb", 2}, M: "Msg", Fmt: "via emb", Err: ref{"nil", 0}},
 		{Recv: ref{"cell", 5}, M: "Stack", Err: ref{"nil", 0}}})
 	emit(out, "corpus", base, fs, nil)
+	// a sub-factory: FactoryOf applied to a derived error, further derivations from it, and the
+	// parent's own derivations (all one family); the same on an extension type
+	fac := func(cell int) opDesc { return opDesc{Recv: ref{"cell", cell}, M: "FactoryOf", Err: ref{"nil", 0}} }
+	emit(out, "corpus", base, fs, []opDesc{op(0, "Msg"), fac(4), op(4, "Stack"), op(0, "DTag"), op(5, "Msg"), fac(5),
+		op(2, "Msg"), fac(8), op(8, "Stack"), op(1, "Msg"), fac(10), fac(1), op(1, "Stack")})
+	// an extension factory vs its embedded base (the matrix holds both forms), foreign errors
+	// wrapping gerror values (root, derived, extension), non-comparable errors on both sides
+	wr := append(append([]foreignDesc{}, fs...), foreignDesc{Kind: "wrapg", Cell: 0}, foreignDesc{Kind: "wrapg", Cell: 4},
+		foreignDesc{Kind: "wrapg", Cell: 5}, foreignDesc{Kind: "wrapg", Cell: 2})
+	emit(out, "corpus", base, wr, []opDesc{op(0, "Stack"), op(2, "Msg"), conv(3, "Convert", 1), conv(1, "ConvertS", 7),
+		conv(6, "Convert", 2), {Recv: ref{"emb", 2}, M: "Convert", Err: ref{"foreign", 1}}})
 }
 
 func main() {
@@ -590,7 +653,11 @@ func main() {
 		for i := 0; i < *n; i++ {
 			roots := randRoots(r)
 			fs := randForeign(r)
-			emit(out, "random", roots, fs, randOps(r, roots, len(fs), 4+r.IntN(14)))
+			ops, ncells := randOps(r, roots, len(fs), 4+r.IntN(14))
+			for k, nw := 0, r.IntN(3); k < nw; k++ { // foreign errors wrapping a gerror value
+				fs = append(fs, foreignDesc{Kind: "wrapg", Cell: r.IntN(ncells)})
+			}
+			emit(out, "random", roots, fs, ops)
 		}
 	}
 }
